@@ -52,6 +52,26 @@ def showEnc : EncRes → String
   | .error .type => "err type"
   | .error .key => "err key"
 
+def showI32 : Instr32 → String
+  | .r op rd rs1 rs2 => s!"r {repr op} {rd} {rs1} {rs2}"
+  | .i op rd rs1 imm => s!"i {repr op} {rd} {rs1} {imm}"
+  | .sh op rd rs1 sh => s!"sh {repr op} {rd} {rs1} {sh}"
+  | .load op rd rs1 imm => s!"load {repr op} {rd} {rs1} {imm}"
+  | .store op b sr imm => s!"store {repr op} {b} {sr} {imm}"
+  | .branch op a b imm => s!"branch {repr op} {a} {b} {imm}"
+  | .lui rd f => s!"lui {rd} {f}"
+  | .auipc rd f => s!"auipc {rd} {f}"
+  | .jal rd imm => s!"jal {rd} {imm}"
+  | .jalr rd rs1 imm => s!"jalr {rd} {rs1} {imm}"
+  | .fence fm p sc rd rs1 => s!"fence {fm} {p} {sc} {rd} {rs1}"
+  | .fenceI => "fence.i"
+  | .ecall => "ecall"
+  | .ebreak => "ebreak"
+  | .csr op rd src c => s!"csr {repr op} {rd} {src} {c}"
+  | .lr aq rl rd rs1 => s!"lr {aq} {rl} {rd} {rs1}"
+  | .sc aq rl rd rs1 rs2 => s!"sc {aq} {rl} {rd} {rs1} {rs2}"
+  | .amo op aq rl rd rs1 rs2 => s!"amo {repr op} {aq} {rl} {rd} {rs1} {rs2}"
+
 def allSome {α} (l : List (Option α)) : Option (List α) :=
   l.foldr (fun x acc => match x, acc with | some a, some r => some (a :: r) | _, _ => none) (some [])
 
@@ -89,6 +109,10 @@ def handle (line : String) : String :=
   | "legal16" :: name :: ops =>
     match allSome (ops.map parseOpnd) with
     | some ops => if legal16 name ops then "yes" else "no"
+    | none => "bad-args"
+  | ["dec32", w] =>
+    match w.toNat? with
+    | some w => match decode32 w with | some i => showI32 i | none => "none"
     | none => "bad-args"
   | ["dec16", h] =>
     match h.toNat? with
